@@ -1209,6 +1209,69 @@ mut("ok-cascade-threshold-4", "benign", ["C02", "C06"], "cascade threshold raise
 HERE = os.path.dirname(os.path.abspath(__file__))
 VERIF = os.path.dirname(HERE)
 import glob
+# a break made on top of an agent-written refactoring: the rules must still see it in the restructured code
+def combo(id, props, desc, refactor, edits, expect):
+    mut("combo-" + id, "break", props, "%s (on top of refactoring %s)" % (desc, refactor),
+        [{"patch": "selftest/refactors/%s.diff" % refactor}] + edits, expect)
+
+
+L = "src/ebr_impl/sync/list.rs"
+PT = "src/ebr_impl/pointers.rs"
+DF = "src/ebr_impl/deferred.rs"
+combo("R5-2-token", ["C01", "C05"], "the closure given to update_state adds 1 even from zero", "R5-2",
+      [ed(U, "Some(old.add_strong(if old.strong() == 0 { 2 } else { 1 }))", "Some(old.add_strong(1))")], ["CW-TOKEN"])
+combo("R5-2-declines-never", ["C05"], "try_increment_strong's closure no longer declines on DESTRUCTED", "R5-2",
+      [ed(U, """            if old.destructed() {
+                return None;
+            }
+            Some(old.add_strong(if""", """            Some(old.add_strong(if""")], ["CW-INC-FAIL-ON-DESTRUCTED"])
+combo("R5-3-no-stamp", ["C02"], "the worker no longer stamps the epoch", "R5-3",
+      [ed(U, "let marked = curr.with_epoch(epoch).sub_strong(count);", "let marked = curr.sub_strong(count);")],
+      ["CW-STAMP-ON-DEC"])
+combo("R5-3-always-defers", ["C01", "C04"], "the worker defers try_destruct whenever the count is small", "R5-3",
+      [ed(U, "if replaced.strong() == count {", "if replaced.strong() <= count + 1 {")], ["CW-ZERO-DEFERS"])
+combo("R7-1-no-reset", ["C14", "C13"], "announce_current_epoch retries without retracting the announcement", "R7-1",
+      [ed(I, """                self.epoch.store(Epoch::starting(), Ordering::Release);
+                continue;""", """                continue;""")], ["EBR-PIN-VALIDATE"])
+combo("R7-1-no-validate", ["C14", "C13"], "announce_current_epoch does not re-read the global epoch", "R7-1",
+      [ed(I, "if candidate.value() != global.epoch.load(Ordering::Acquire).value() {", "if false {")], ["EBR-PIN-VALIDATE"])
+combo("R7-3-stall-skipped", ["C18", "C13"], "a stalled traversal item is skipped instead of ending the attempt", "R7-3",
+      [ed(I, "let local = local.map_err(|IterError::Stalled| global_epoch)?;", "let Ok(local) = local else { continue };")],
+      ["EBR-ADVANCE"])
+combo("R8-1-swapped", ["C08", "C17", "C18"], "the const-generic cas helper swaps expected and desired in its strong arm", "R8-1",
+      [ed(PT, ".compare_exchange(expected, desired, success, failure)", ".compare_exchange(desired, expected, success, failure)")],
+      ["WRAP-ATOMICS"])
+combo("R8-3-next-once", ["C18"], "insert sets entry.next once before the retry helper instead of on every attempt", "R8-3",
+      [ed(L, "            entry.next.store(succ, Relaxed);\n", "            let _ = succ;\n"),
+       ed(L, "let first = self.head.load(Relaxed, guard);", "let first = self.head.load(Relaxed, guard);\n        entry.next.store(first, Relaxed);")],
+      ["EBR-LIST"])
+combo("R8-5-wrong-call", ["C15"], "the inline arm is packed with the Box-reading call", "R8-5",
+      [ed(DF, "Self::pack::<F>(f, call_inline::<F>)", "Self::pack::<F>(f, call_boxed::<F>)")], ["EBR-DEFERRED-INLINE"])
+combo("R6-4-drop-leaks", ["C04", "C08"], "AtomicRc::drop no longer releases its share", "R6-4",
+      [ed(S, """        let ptr = *self.link.get_mut();
+        unsafe { ptr.release_strong(1, None) }""", """        let _ptr = *self.link.get_mut();""")], ["OWN-BALANCE"])
+combo("R6-4-release-zero", ["C01", "C04"], "Rc::drop releases 0 shares through the helper", "R6-4",
+      [ed(S, """    fn drop(&mut self) {
+        unsafe { self.ptr.release_strong(1, None) }""", """    fn drop(&mut self) {
+        unsafe { self.ptr.release_strong(0, None) }""")], ["CW-DEC-NONZERO", "OWN-BALANCE"])
+combo("R6-5-remain-not-updated", ["C10"], "NewRcIter::next no longer writes the decremented remain back", "R6-5",
+      [ed(S, "        self.remain = left;\n", "        let _ = left;\n")], ["OWN-BALANCE"])
+combo("R7-2-flag-not-set", ["C07", "C16"], "unpin tests the collecting flag without setting it", "R7-2",
+      [ed(I, "if !self.collecting.replace(true) {", "if !self.collecting.get() {")],
+      ["REC-COLLECT-REENTRY", "EBR-COLLECT-OUTERMOST"])
+combo("R6-1-no-ptr-eq-retry", ["C08"], "the generic CAS helper reports an epoch-only difference as a failure", "R6-1",
+      [ed(S, """                    if current_raw.ptr_eq(expected_raw) {
+                        expected_raw = current_raw;
+                    } else {
+                        let current = Snapshot::from_raw(current_raw, guard);
+                        return Err(CompareExchangeError { desired, current });
+                    }""", """                    let current = Snapshot::from_raw(current_raw, guard);
+                    return Err(CompareExchangeError { desired, current });""")], ["CAS-EPOCH-BLIND"])
+combo("R6-1-success-keeps-desired", ["C08", "C01"], "the generic CAS helper does not give up `desired` on success", "R6-1",
+      [ed(S, """                    // Skip decrementing a strong count of the inserted pointer.
+                    forget(desired);
+                    let rc = Rc::from_raw(expected_raw);""", """                    let rc = Rc::from_raw(expected_raw);""")], ["OWN-BALANCE"])
+
 # behaviour-preserving refactorings written by sub-agents told to keep every interleaving's behaviour (selftest/refactors/)
 for f in sorted(glob.glob(os.path.join(HERE, "refactors", "*.diff"))):
     name = os.path.basename(f)[:-5]
